@@ -22,11 +22,15 @@ def _fit_mode(u_resampled: np.ndarray, dof_fallback: float):
         valid = (
             np.all(np.isfinite(mean))
             and np.all(np.isfinite(covariance))
-            and np.isfinite(np.linalg.cond(covariance))
-            and np.all(np.linalg.eigvalsh(0.5 * (covariance + covariance.T)) > 0)
             and not np.isnan(dof)
             and dof > 0
         )
+        if valid:
+            # positive definite to working precision: a covariance fitted from
+            # fewer distinct points than dimensions + 1 is rank deficient, and
+            # rounding can leave its smallest eigenvalue at +1e-20 instead of 0
+            eigenvalues = np.linalg.eigvalsh(0.5 * (covariance + covariance.T))
+            valid = eigenvalues[0] > n_dim * np.finfo(float).eps * eigenvalues[-1]
         if valid:
             np.linalg.cholesky(covariance)
     except (np.linalg.LinAlgError, ValueError, FloatingPointError):
